@@ -1,14 +1,29 @@
 CHECK = {
     "lean_module": "MidnightZK.Props.C12",
     "harness": "h-c12",
-    "translators": [],
+    "translators": ["c12_consts"],
     "level": "proof",
-    "rule": "parallelize: every (len, threads) pair in the sweep, non-trivial when len > threads; "
-            "distinctness by hash of the request line",
-    "explanation": "Lean theorems over the executable model of MSM/FFT/domain algebra; model tied to the "
-                   "implementation by running both on the same requests",
-    "trusted_base": ["blst group arithmetic (bases/buckets) is modelled as an abstract group"],
+    "technique": "Lean 4 theorems over an executable model + translator-regenerated constants + line-by-line correspondence with the real entry points",
+    "rule": "one evaluation = one request line answered by both the Rust entry point and the Lean model "
+            "(MSM entry x length x scalar/base classes x thread pool; Booth digit rows; FFT size x pool x input class; "
+            "eval_polynomial/kate_division/lagrange_interpolate per length; EvaluationDomain method per (j,k)); "
+            "non-trivial = more than one term / size > 1; distinctness by hash of the request line",
+    "explanation": "Lean theorems (all lengths, all thread counts, abstract commutative group / ring) over the executable "
+                   "model of MSM/FFT/domain algebra; the model is tied to the implementation by running both on the same "
+                   "requests and diffing, the field constants are re-parsed from the source on every run, and the harness "
+                   "checks the property's oracle (naive sum / naive DFT / Horner / round trips) directly on the implementation",
+    "trusted_base": [
+        "blst group and field arithmetic (bases, buckets, multi_exp) is modelled as an abstract commutative group / as the naive sum and compared by correspondence only",
+        "the driver's own affine BLS12-381/BN254 G1 arithmetic (Model/C12/Curve.lean) used to print [k]G; its constants are proved on-curve and of order r by kernel evaluation",
+        "ff::Field::pow_vartime, batch_invert and invert are specified as power / inverse (0 stays 0)",
+    ],
     "level_text": "Kernel-checked Lean theorems about an executable model of the MSM/FFT/evaluation-domain algorithms (all lengths, all thread counts), with the model checked against the real entry points on every run",
-    "level_note": "Trusted: Lean kernel, the correspondence harness and driver; blst group arithmetic and rayon's scheduler are modelled, not verified",
-    "assumptions": ["rayon executes every spawned closure exactly once"],
+    "level_note": "Trusted: Lean kernel, the correspondence harness and driver; blst group arithmetic and rayon's scheduler are modelled, not verified. "
+                  "Bit-reversal swap loop = recursive permutation is kernel-checked only up to 2^7 (larger sizes by correspondence); "
+                  "batch_add's affine chord/tangent formulas are modelled as the group law (their correctness belongs to C11).",
+    "assumptions": [
+        "rayon executes every spawned closure exactly once",
+        "fewer than 2^32 bases (the code casts the length to u32)",
+    ],
+    "timeout": {"quick": 600, "thorough": 2400, "search": 600},
 }
